@@ -399,6 +399,7 @@ func rulesC10(c *Ctx) {
 	c.Extra["panic_sites_on_cone"] = nP
 	c.Floor("C10.panics", nP, 40, "explicit panic sites on the block-execution cone")
 	c10VRFProofWriters(c)
+	c10ErrPathNil(c, g, cone)
 	rulesC10Round2(c, c.P.BuildIndex())
 }
 
